@@ -49,6 +49,8 @@ type Light struct {
 	viaJSON bool
 	late    bool // applies an update to its elements after adopting the elements the update created
 	els     map[[32]byte]*tracked
+	auBuf   consensus.ApplyUpdate  // a client that parses every update into one variable
+	ruBuf   consensus.RevertUpdate //
 }
 
 func (l *Light) sorted() []*tracked {
@@ -140,11 +142,16 @@ func (w *World) lightsApplied(n *Node, e *blockEntry, au consensus.ApplyUpdate) 
 				return
 			}
 			var au2 consensus.ApplyUpdate
-			if p := guard(func() { err = json.Unmarshal(js, &au2) }); p != "" || err != nil {
+			dst := &au2
+			if l.idx%2 == 1 {
+				dst = &l.auBuf // (every second JSON client keeps one variable for all updates)
+				w.stats.Inc("probe.light.json-update-into-used-variable")
+			}
+			if p := guard(func() { err = json.Unmarshal(js, dst) }); p != "" || err != nil {
 				w.violate("C20", "apply-update-unmarshal", fmt.Sprintf("json.Unmarshal(ApplyUpdate) failed at height %d: %v %s", e.height, err, p))
 				return
 			}
-			u = au2
+			u = *dst
 			w.stats.Inc("probe.light.json-update")
 		}
 		// refresh proofs: before adopting the block's new elements or (clients
@@ -240,11 +247,15 @@ func (w *World) lightsReverted(n *Node, e *blockEntry, ru consensus.RevertUpdate
 				return
 			}
 			var ru2 consensus.RevertUpdate
-			if p := guard(func() { err = json.Unmarshal(js, &ru2) }); p != "" || err != nil {
+			dst := &ru2
+			if l.idx%2 == 1 {
+				dst = &l.ruBuf
+			}
+			if p := guard(func() { err = json.Unmarshal(js, dst) }); p != "" || err != nil {
 				w.violate("C20", "revert-update-unmarshal", fmt.Sprintf("json.Unmarshal(RevertUpdate) failed at height %d: %v %s", e.height, err, p))
 				return
 			}
-			u = ru2
+			u = *dst
 		}
 		numLeaves := parent.state.Elements.NumLeaves
 		for id, t := range l.els {
